@@ -8,7 +8,7 @@
    is (due time, TaskManager counter at installation, task).  `fired ev` = the entries fired in ev,
    in order.  guard = true is the tree with the per-call guard in the deferred loop (the fix:
    commit); jit is the 1 us jitter of RecurringTask in clock ticks. *)
-From Bac Require Import Base Deferred DeferredFacts Sched SchedFacts SchedThms SchedOrder SchedC14.
+From Bac Require Import Base Deferred DeferredFacts Sched SchedFacts SchedThms SchedOrder SchedRun SchedC14.
 From Coq Require Import Permutation Sorted.
 Open Scope Z_scope.
 
@@ -102,6 +102,15 @@ Theorem C14_task_exception_isolated : forall jit c s, 0 <= jit -> reachable true
 Proof. exact c14_task_exception_isolated. Qed.
 Print Assumptions C14_task_exception_isolated.
 
+(* core.run (spin 0, no sockets): ends within its fuel with nothing due and nothing deferred; every
+   entry that was due has fired, whichever callbacks raised *)
+Theorem C14_run_fires_all_due : forall jit c s s' ev, 0 <= jit -> reachable true jit c s ->
+  run true jit c s = (s', ev) ->
+  ~ In (EvErr OutOfFuel) ev /\ dq s' = [] /\ due_count s' = 0%nat /\
+  forall x, In x (heap s) -> e_when x <= now s -> In x (fired ev).
+Proof. exact c14_run_fires_all_due. Qed.
+Print Assumptions C14_run_fires_all_due.
+
 (* ---- non-vacuity ---- *)
 Definition ex_cfg : cfg :=
   [mkT OneShot false []; mkT OneShot true [DF 7 true []; DF 8 false []]; mkT OneShot false [];
@@ -122,6 +131,11 @@ Example C14_ex_passes :
   = [EvFire 1 5 2 5; EvRaise; EvFire 2 5 4 5; EvCall 7; EvRaise; EvCall 8; EvFire 0 5 5 5].
 Proof. vm_compute. reflexivity. Qed.
 (* the recurring task (interval 300000 ticks, offset 1000) installed at clock 0 is due at its first slot *)
+(* core.run from the same state: every try is per iteration, so all three fire in one call *)
+Example C14_ex_run :
+  snd (run_ops true 3 ex_cfg st0 (ex_ops ++ [Run]))
+  = [EvFire 1 5 2 5; EvRaise; EvFire 2 5 4 5; EvCall 7; EvRaise; EvCall 8; EvFire 0 5 5 5].
+Proof. vm_compute. reflexivity. Qed.
 Example C14_ex_recurring :
   heap (fst (run_ops true 3 ex_cfg st0 [Reinstall 3; ToDue; Poll; ToDue; Poll]))
   = [(601000, 2%N, 3%nat)].
